@@ -20,7 +20,8 @@ Inductive hop : Type :=
 | HSetTableName (tn : value)
 | HChangeType (hm : list (str * str)) (remove_param : bool)
 | HAppendColumn (col : value)
-| HAppendPartitionColumn (col : value).
+| HAppendPartitionColumn (col : value)
+| HSetWithClause (wc : value).      (* ASTSingleSelectStatement / ASTUnionSelectStatement.set_with_clauses *)
 
 (* `x += (column,)` : tuple -> new tuple; list -> list.extend (same kind); anything else -> TypeError *)
 Definition append_item (cur : value) (x : value) : res value :=
@@ -64,6 +65,7 @@ Definition apply_hop (h : hop) (c : value) : res value :=
       match append_item (get "columns" c) col with Ok x => Ok (set_field "columns" x c) | Err e => Err e end
   | HAppendPartitionColumn col =>
       match append_item (get "partitioned_by" c) col with Ok x => Ok (set_field "partitioned_by" x c) | Err e => Err e end
+  | HSetWithClause wc => Ok (set_field "with_clause" wc c)
   end.
 
 Fixpoint apply_hops (hs : list hop) (c : value) : res value :=
